@@ -66,8 +66,6 @@ def run(chk):
         # mixed specifications, and a missing (None) one for every field in turn
         wspecs.append({f: wkinds[i % 4] for i, f in enumerate(fields)})
         for f in fields:
-            if f == 'dyn_loss' and not thorough:
-                continue
             d = {g: 'scalar' for g in fields}
             d[f] = 'none'
             wspecs.append(d)
